@@ -17,8 +17,17 @@ import (
 
 // ---- the fixed family of recursive node types ----
 
+// GEdge sits BY VALUE in slices and arrays and holds a reference.
+type GEdge struct {
+	To *GNode
+	W  int
+}
+
 type GNode struct {
 	ID     int
+	Edges  []GEdge
+	Duo    [2]GEdge
+	Grid   [2][1]*GNode
 	Next   *GNode
 	Kids   []*GNode
 	Pair   [2]*GNode
@@ -65,6 +74,11 @@ type LeafDesc struct {
 
 type NodeDesc struct {
 	Next     int                `json:"next"`
+	Edges    []int              `json:"edges,omitempty"`
+	Duo      [2]int             `json:"duo"`
+	Grid     [2]int             `json:"grid"`
+	KidsOf   int                `json:"kids_of"`  // >= 0: Kids is a prefix view (same backing array) of that node's Kids
+	KidsLen  int                `json:"kids_len"` // length of the prefix view
 	Kids     []int              `json:"kids,omitempty"`
 	Pair     [2]int             `json:"pair"`
 	ByName   int                `json:"by_name"`
@@ -160,7 +174,17 @@ func genGraph(t *rapid.T) GraphDesc {
 		g.Ints = append(g.Ints, rapid.IntRange(0, 99).Draw(t, "int"))
 	}
 	for i := 0; i < n; i++ {
-		nd := NodeDesc{Next: genNodeRef(t, n, "next"), Pair: [2]int{genNodeRef(t, n, "pair0"), genNodeRef(t, n, "pair1")}, ByName: -1}
+		nd := NodeDesc{Next: genNodeRef(t, n, "next"), Pair: [2]int{genNodeRef(t, n, "pair0"), genNodeRef(t, n, "pair1")}, ByName: -1, KidsOf: -1}
+		nd.Duo = [2]int{genNodeRef(t, n, "duo0"), genNodeRef(t, n, "duo1")}
+		nd.Grid = [2]int{genNodeRef(t, n, "grid0"), genNodeRef(t, n, "grid1")}
+		for j, k := 0, rapid.IntRange(0, 3).Draw(t, "edges"); j < k; j++ {
+			nd.Edges = append(nd.Edges, genNodeRef(t, n, "edge"))
+		}
+		if i > 0 && rapid.IntRange(0, 3).Draw(t, "kids_view") == 0 {
+			// a prefix view of an earlier node's Kids: same backing array, shorter length
+			nd.KidsOf = rapid.IntRange(0, i-1).Draw(t, "kids_of")
+			nd.KidsLen = rapid.IntRange(0, 3).Draw(t, "kids_len")
+		}
 		for j, k := 0, rapid.IntRange(0, 3).Draw(t, "kids"); j < k; j++ {
 			nd.Kids = append(nd.Kids, genNodeRef(t, n, "kid"))
 		}
@@ -331,6 +355,14 @@ func instantiate(g GraphDesc) *graphInst {
 			}
 		}
 		n.Pair = [2]*GNode{gi.node(nd.Pair[0]), gi.node(nd.Pair[1])}
+		n.Duo = [2]GEdge{{To: gi.node(nd.Duo[0]), W: 1}, {To: gi.node(nd.Duo[1]), W: 2}}
+		n.Grid = [2][1]*GNode{{gi.node(nd.Grid[0])}, {gi.node(nd.Grid[1])}}
+		if nd.Edges != nil {
+			n.Edges = make([]GEdge, 0, len(nd.Edges)+1)
+			for w, e := range nd.Edges {
+				n.Edges = append(n.Edges, GEdge{To: gi.node(e), W: w})
+			}
+		}
 		if nd.ByName >= 0 && nd.ByName < len(gi.nodeMaps) {
 			n.ByName = gi.nodeMaps[nd.ByName]
 		}
@@ -346,6 +378,19 @@ func instantiate(g GraphDesc) *graphInst {
 				l.N = gi.ints[nd.Leaf.N]
 			}
 			n.Leaf = l
+		}
+	}
+	// pass 1b: Kids that are prefix views of another node's Kids
+	for i, nd := range g.Nodes {
+		if nd.KidsOf >= 0 && nd.KidsOf < len(gi.nodes) && nd.KidsOf != i {
+			src := gi.nodes[nd.KidsOf].Kids
+			if src != nil && g.Nodes[nd.KidsOf].KidsOf < 0 {
+				k := nd.KidsLen
+				if k > len(src) {
+					k = len(src)
+				}
+				gi.nodes[i].Kids = src[:k]
+			}
 		}
 	}
 	// pass 2: interface payloads
@@ -404,13 +449,13 @@ func (gi *graphInst) root(r RootDesc) *GRoot {
 // ---- topology oracle ----
 
 type topo struct {
-	m       map[uintptr]uintptr // in reference -> out reference (pointers and maps)
-	visited map[[2]uintptr]bool
-	inAddrs map[uintptr]bool
-	err     string
-	cycle   bool
-	shared  bool
-	indeg   map[uintptr]int
+	m                                    map[uintptr]uintptr // in reference -> out reference (pointers and maps)
+	visited                              map[[2]uintptr]bool
+	inAddrs                              map[uintptr]bool
+	err                                  string
+	cycle                                bool
+	shared                               bool
+	indeg                                map[uintptr]int
 	viaIface, viaMap, viaSlice, viaArray bool
 }
 
@@ -569,6 +614,13 @@ func hasCycle(g GraphDesc) (cycle, viaIface bool) {
 		}
 		add(i, nd.Pair[0], false)
 		add(i, nd.Pair[1], false)
+		add(i, nd.Duo[0], false)
+		add(i, nd.Duo[1], false)
+		add(i, nd.Grid[0], false)
+		add(i, nd.Grid[1], false)
+		for _, e := range nd.Edges {
+			add(i, e, false)
+		}
 		if nd.ByName >= 0 && nd.ByName < len(g.NodeMaps) {
 			for _, v := range g.NodeMaps[nd.ByName] {
 				add(i, v, false)
